@@ -539,3 +539,8 @@ Definition plan_par_okb (p : plan) (s : state) : bool :=
        forallb (fun '(m, w', a') =>
           (n =? m)%nat || negb (height (nd s n) =? height (nd s m))
           || match target a, target a' with Some v, Some v' => negb (v =? v')%nat | _, _ => true end) p) p.
+
+(** two failing functions in one block: which error the pass returns depends on the order *)
+Definition ex_fault_plan : plan := [(2%nat, WFn, AFail FErr); (3%nat, WFn, AFail FErr)].
+Definition blk_err (r : res (state * option err * list nid)) : option err :=
+  match r with Ok (_, e, _) => e | _ => None end.
